@@ -32,27 +32,6 @@ theorem C01_json_api_roundtrip (t : JTy) (v : Val) (ms : List (String × Json)) 
 
 /-! ### Go map iteration order -/
 
-theorem distinctKeys_iff (es : List (Val × Val)) :
-    distinctKeys es = true ↔ es.Pairwise (fun a b => a.1.keyEq b.1 = false) := by
-  induction es with
-  | nil => simp [distinctKeys]
-  | cons p ps ih =>
-    simp only [distinctKeys, Bool.and_eq_true, Bool.not_eq_eq_eq_not, Bool.not_true, List.any_eq_false,
-      List.pairwise_cons, ih]
-    constructor
-    · rintro ⟨h1, h2⟩
-      exact ⟨fun q hq => by simpa using h1 q hq, h2⟩
-    · rintro ⟨h1, h2⟩
-      exact ⟨fun q hq => by simpa using h1 q hq, h2⟩
-
-/-- being an expressible Go-map value does not depend on the order in which the entries are listed. -/
-theorem valOk_map_perm (b : Bounds) (k e : JTy) {es es' : List (Val × Val)} (hp : es.Perm es')
-    (h : valOk fc (.map b k e) (.map es) = true) : valOk fc (.map b k e) (.map es') = true := by
-  simp only [valOk, Bool.and_eq_true, List.all_eq_true] at h ⊢
-  refine ⟨?_, fun p hp' => h.2 p (hp.mem_iff.mpr hp')⟩
-  rw [distinctKeys_iff] at h ⊢
-  exact (hp.pairwise_iff (fun {x y} hxy => by rw [keyEq_symm]; exact hxy)).mp h.1
-
 /-- **Encoding follows Go's map iteration order, and that is harmless**: whichever order the
 entries of a map are visited in, the produced object decodes to exactly those entries — i.e. to the
 same Go map. -/
@@ -68,7 +47,7 @@ theorem C01_json_map_any_iteration_order (b : Bounds) (k e : JTy) (es es' : List
 and for every target type: if `j'` is `j` with the members of its objects permuted (`JPerm`,
 Hive/Spec/SerixJsonOrder.lean) and `j` is a `map[string]any` tree (no duplicate member names), then
 whatever `j` decodes to, `j'` decodes to the same Go value (`VEquiv`: Go maps compared as sets of
-entries) — and, `JPerm` being symmetric on such documents, an error on one is an error on the other.
+entries).
 This is what makes Go's random map iteration order harmless on both sides: `JSONEncode` may emit the
 members of a Go map in any order, `json.Unmarshal` hands the decoder unordered `map[string]any`s. -/
 theorem C01_json_key_order_irrelevant (t : JTy) (j j' : Json) (v : Val) (hp : JPerm j j')
